@@ -53,12 +53,21 @@ def run(ctx):
                     kv = dict(x.split('=') for x in ln.split()[1:]); steps += int(kv['steps']); div += int(kv['diverged'])
                 elif ln.startswith('DIVERGE'):
                     ctx.tie_broken.append('correspondence (threads=%d seed=%d): %s' % (nt, seed, ln[:250]))
+    # stateless allocators used concurrently without a lock: balanced histories from all threads, the shared leak counters must end at zero
+    stateless = []
+    for nt in ([8, 16, 8, 16, 4, 12] if not thorough else [2, 4, 8, 16] * 5):
+        out = subprocess.run([exe, 'stateless', str(nt), str(400000 if not thorough else 600000)], stdout=subprocess.PIPE, stderr=subprocess.PIPE, text=True, timeout=900)
+        leaks = [l for l in out.stdout.split('\n') if l.startswith('LEAK')]
+        stateless.append(dict(threads=nt, exit=out.returncode, leaks=leaks[:3]))
+        if (out.returncode != 0 or leaks) and len(ctx.violations) < 3:
+            ctx.violation('stateless/%d' % nt, 'C13 fails on the implementation: %d threads using a stateless allocator concurrently (balanced allocate/deallocate pairs) leave its bookkeeping inconsistent: %s' % (nt, leaks[0] if leaks else 'exit status %d' % out.returncode),
+                          dict(harness='h_thread.cpp', args=['stateless', nt, 400000 if not thorough else 600000], output=out.stdout[-300:]))
     ctx.tie_broken = ctx.tie_broken[:6]
     ctx.cov['generated_obligations'] = 0
     ctx.cov.update(dict(
         tie=dict(kind='(1) lock table regenerated from the class-template patterns of allocator_storage and locked_allocator (clang AST) and the obligation re-checked by vm_compute; (2) instrumented mutex + instrumented wrapped allocator under real threads: every entry must be by the mutex owner and never overlap; the recorded event trace (lock/enter/leave/unlock per thread) must be a run of the interleaving model',
                  thread_counts=sorted(set(r[0] for r in runs)), runs=len(runs), trace_steps_validated=steps, divergences=div,
-                 calls_per_forwarding_member=members),
+                 calls_per_forwarding_member=members, stateless_concurrent=stateless),
         evaluations=len(runs), distinct_nontrivial=len(runs),
         rule='2..8 (thorough ..16) real threads, each a seeded sequence over all eleven forwarding members and the lock() proxy (plain, const, and moved into a longer-lived object with 0..3 passes); a stateless allocator under the same threads must take no lock; distinct = distinct (threads, seed) runs',
         assumed=['std::mutex provides mutual exclusion and happens-before', 'sequential consistency of the atomic steps of the model (the code uses the default memory order)']))
